@@ -84,5 +84,9 @@ func Load(cfg LoadConfig) (*Program, error) {
 			pr.initAllowed[sp] = true
 		}
 	}
+	pr.byName = map[string]*ssa.Function{}
+	for fn := range ssautil.AllFunctions(prog) {
+		pr.byName[fn.String()] = fn
+	}
 	return pr, nil
 }
